@@ -122,7 +122,7 @@ func runC10(c *Check) {
 			// the value put is the encoding of this batch
 			for _, pn := range g.Select(isPut) {
 				v := ArgTerm(pn, 2)
-				if v != nil && strings.Contains(v.String(), "proto.Marshal(") && p.DeepContains(v, func(t *Term) bool {
+				if v != nil && p.DeepContains(v, func(t *Term) bool { return t.IsCall("proto.Marshal") }, 2) && p.DeepContains(v, func(t *Term) bool {
 					return t.Op == "field" && t.Name == "Transactions" && t.Args[0].String() == add.Params[2].Name()
 				}, 2) {
 					c.OK("C10-R1", "AddBatch ⟂ Put-value=batch", fn, p.InstrPos(pn.In), "the stored value encodes the submitted batch's transactions", true)
@@ -147,19 +147,28 @@ func runC10(c *Check) {
 			c.Decide("C10-R2", "AddBatch ⟂ queue-full-leaves-no-trace", fn, p.InstrPos(fullExits[0].In), "no write precedes the queue-full return",
 				"a submission rejected as queue-full has already been written", g, path)
 			// R3
-			limitOff := g.Select(EdgeWhere(func(t *Term, pol bool, n *Node) bool {
-				t, pol = normFact(t, pol)
-				return !pol && t.Op == "bin" && t.Name == ">" && strings.HasSuffix(t.Args[0].String(), ".maxQueueSize") && t.Args[1].Name == "0"
-			}))
-			below := g.Select(EdgeWhere(func(t *Term, pol bool, n *Node) bool {
-				t, pol = normFact(t, pol)
-				return !pol && t.Op == "bin" && t.Name == ">=" && strings.HasPrefix(t.Args[0].String(), "len(") && strings.HasSuffix(t.Args[0].String(), ".queue)") && strings.HasSuffix(t.Args[1].String(), ".maxQueueSize")
-			}))
+			isLimitOff := func(t *Term, pol bool) bool {
+				a, op, b, ok := canonCmp(t, pol) // maxQueueSize <= 0
+				return ok && op == "<=" && strings.HasSuffix(a.String(), ".maxQueueSize") && b.unconv().Name == "0"
+			}
+			isBelow := func(t *Term, pol bool) bool {
+				a, op, b, ok := canonCmp(t, pol) // len(queue) < maxQueueSize
+				return ok && op == "<" && strings.HasPrefix(a.String(), "len(") && strings.HasSuffix(a.String(), ".queue)") && strings.HasSuffix(b.String(), ".maxQueueSize")
+			}
+			limitOff := g.GuardEdges(isLimitOff)
+			below := g.GuardEdges(isBelow)
+			either := g.GuardEdges(func(t *Term, pol bool) bool { return isLimitOff(t, pol) || isBelow(t, pol) })
+			if len(below) == 0 && len(either) > 0 {
+				below = either
+			}
+			if len(limitOff) == 0 && len(either) > 0 {
+				limitOff = either
+			}
 			if len(limitOff) == 0 || len(below) == 0 {
 				c.Bad("C10-R3", "AddBatch ⟂ bound", fn, "", fmt.Sprintf("bound guard not found (maxQueueSize>0 test: %d, len(queue)>=max test: %d)", len(limitOff), len(below)), nil)
 			} else {
 				c.Decide("C10-R3", "AddBatch ⟂ bound", fn, p.InstrPos(below[0].In), "the queue grows only if maxQueueSize <= 0 or len(queue) < maxQueueSize",
-					"the queue can grow past its bound", g, g.PathAvoiding([]*Node{g.Entry}, orPred(qStore, isPut), orPred(nodeSet(limitOff), nodeSet(below))))
+					"the queue can grow past its bound", g, g.PathAvoiding([]*Node{g.Entry}, orPred(qStore, isPut), orPred(orPred(nodeSet(limitOff), nodeSet(below)), nodeSet(either))))
 			}
 		}
 		// R4: key provenance
@@ -191,7 +200,7 @@ func runC10(c *Check) {
 	}
 	// ---- Load: key order
 	{
-		g := BuildECFG(p, load, ExpandOpts{MaxDepth: 0})
+		g := BuildECFG(p, load, ownPkgOpts(singlePkg, 2))
 		c.NoteGraph(g)
 		fn := fnName(load)
 		qs := g.Select(func(n *Node) bool { return dsCall(n, "Query") })
@@ -231,7 +240,7 @@ func runC10(c *Check) {
 	}
 	// ---- Load: the key state is restored past every reloaded key, including sequence number 0
 	{
-		g := BuildECFG(p, load, ExpandOpts{MaxDepth: 0})
+		g := BuildECFG(p, load, ownPkgOpts(singlePkg, 2))
 		fn := fnName(load)
 		recvL := load.Params[0].Name()
 		// which receiver fields feed the key in AddBatch
@@ -387,7 +396,7 @@ func runC10(c *Check) {
 	// ---- R7: reload completeness
 	c.Doc("C10-R7", "EO: the reload consumes the whole result stream (the loop over the stored entries is left only when the stream is exhausted or through an error return) and appends every entry that decoded.")
 	{
-		g := BuildECFG(p, load, ExpandOpts{MaxDepth: 0})
+		g := BuildECFG(p, load, ownPkgOpts(singlePkg, 2))
 		c.NoteGraph(g)
 		fn := fnName(load)
 		isRecv := func(n *Node) bool {
@@ -604,6 +613,7 @@ func runC10(c *Check) {
 
 	// ---- R6 lockset
 	nAcc := 0
+	underLock := callerHolds(p, singlePkg, "mu")
 	for _, fn := range p.Funcs {
 		pk := fnPkg(fn)
 		if pk == nil || pk.Pkg.Path() != singlePkg || fn.Parent() != nil {
@@ -634,7 +644,9 @@ func runC10(c *Check) {
 			}
 			nAcc++
 			inst := fnShort(fn) + " ⟂ " + fieldLabel(fa.X.Type(), fa.Field) + " under mu"
-			if heldAt(g, n, "mu") {
+			if underLock[topParent(fn)] {
+				c.OK("C10-R6", inst, fnName(fn), p.InstrPos(fa), "accessed in a helper whose every caller holds mu", true)
+			} else if heldAt(g, n, "mu") {
 				c.OK("C10-R6", inst, fnName(fn), p.InstrPos(fa), "accessed with mu held", true)
 			} else {
 				c.Bad("C10-R6", inst, fnName(fn), p.InstrPos(fa), "queue state is accessed without holding mu: concurrent submitters and the block producer race on it", nil)
